@@ -159,6 +159,20 @@ def run(R):
                 if back != wantb:
                     bad = bad or dict(rec, check='write-read', implementation=back[:4], expected=wantb[:4])
                 os.remove(new)
+                # 3b. the binning command with sub-sampling: what it writes is what the same sub-sample and binning give in memory
+                if len(samples) > 2 and i % 3 == 0:
+                    k = R.rng.randint(1, len(samples) - 1)
+                    sd = R.rng.randrange(2 ** 31)
+                    np.random.seed(sd)
+                    mem = decode(*sc.parse_scatangle(fn, k, b10 / 10.0, _use_c=False))
+                    np.random.seed(sd)
+                    old2, new2 = sc.bin_scatangle(fn, k, b10 / 10.0)
+                    back2 = decode(*sc.parse_scatangle(new2, 0, 0, _use_c=False))
+                    os.remove(new2)
+                    if back2 != mem:
+                        bad = bad or dict(rec, check='write-read-subsampled', number_location_samples=k, numpy_seed=sd,
+                                          written_file_reads_as=back2[:4], in_memory=mem[:4],
+                                          total_written=sum(w for _, w in back2), total_in_memory=sum(w for _, w in mem))
                 # 4. sub-sampling returns that many of the original records
                 if len(samples) > 3 and i % 5 == 0:
                     k = R.rng.randint(1, len(samples) - 1)
